@@ -39,8 +39,11 @@ type GoldenTypes struct {
 		A int
 		B string
 	}
-	PSub   *SubA
-	Ratio  float32 `sod:"index"`
+	PSub  *SubA
+	Ratio float32 `sod:"index"`
+	// a tag written with a blank after the comma: the release reads it as "index" plus an option
+	// it does not know (and ignores)
+	Note   string `sod:"index, lower"`
 	hidden int
 }
 
@@ -54,7 +57,7 @@ func typesObjects() []*GoldenTypes {
 	var out []*GoldenTypes
 	for i := 0; i < 5; i++ {
 		o := &GoldenTypes{Who: PersonName([]string{"alice", "bob", "alice", "", "Ünï"}[i]), Lvl: Level(i % 3), When: baseTime.Add(time.Duration(i) * time.Hour),
-			Tags: []string{"t", fmt.Sprint(i)}, Attr: map[string]string{"k": fmt.Sprint(i)}, Arr: [2]int{i, -i}, Ratio: float32(i) / 4}
+			Note: []string{"Mixed", "lower", "UPPER", "", "Mixed"}[i], Tags: []string{"t", fmt.Sprint(i)}, Attr: map[string]string{"k": fmt.Sprint(i)}, Arr: [2]int{i, -i}, Ratio: float32(i) / 4}
 		o.At = Stamp(baseTime)
 		o.Sub.A, o.Sub.B = i, "b"
 		if i%2 == 0 {
@@ -102,6 +105,8 @@ func typesObserve(db *sod.DB) (*typesExpected, error) {
 	q("Sub.A=2 (unindexed)", db.Search(&GoldenTypes{}, "Sub.A", "=", 2))
 	q("PSub.X=2 (through nil)", db.Search(&GoldenTypes{}, "PSub.X", "=", 2))
 	q("Tags (container)", db.Search(&GoldenTypes{}, "Tags", "=", "t"))
+	q("Note=Mixed", db.Search(&GoldenTypes{}, "Note", "=", "Mixed"))
+	q("Note=mixed", db.Search(&GoldenTypes{}, "Note", "=", "mixed"))
 	sch, err := db.Schema(&GoldenTypes{})
 	if err != nil {
 		return nil, err
@@ -176,6 +181,9 @@ func TestC18Types(t *testing.T) {
 	sod.LowercaseNames = false
 	db := sod.Open(filepath.Join(work, "db"))
 	defer func() { db.Close() }()
+	if err := db.Create(&GoldenTypes{}, sod.DefaultSchema); err != nil {
+		fail("directory written by the pinned release: Create with the schema derived from the same struct returns %v", err)
+	}
 	if n, err := db.Count(&GoldenTypes{}); err != nil || n != len(want.Objects) {
 		fail("directory written by the pinned release for a struct of defined / container / interface field types: Count=%d err=%v, want %d objects", n, err, len(want.Objects))
 	}
